@@ -49,7 +49,9 @@ fn main() {
     std::panic::set_hook(Box::new(|info| {
         // injected faults and library panics are expected; only machinery panics are printed
         let msg = format!("{}", info);
-        if msg.contains("MACHINERY") {
+        // panics of the harness' own code (not inside a library call under catch_unwind) must be visible
+        let own = std::thread::current().name() == Some("main") && !msg.contains("injected fault") && sched::current_thread().is_none();
+        if msg.contains("MACHINERY") || own {
             eprintln!("{}", msg);
         }
     }));
